@@ -874,3 +874,79 @@ def c14_cases(base, rng):
 C14_KNOWN = {
     "width-0:uint-in-struct": "bounds-assert:zero-width-leaf",
 }
+
+
+# ----------------------------------------------------------------------------
+# $default byte_order scoping: sibling and nested types with defaults at different scopes
+# ----------------------------------------------------------------------------
+def default_scope_cases(rng, n=6):
+    """Modules made of several sibling / nested structs whose `$default byte_order` is set (or not) at
+    module, struct and nested-struct scope in varying order.  By the reference a field gets its own
+    attribute, else the NEAREST ENCLOSING $default, else Null if it is one byte; a wider scalar with
+    no default in scope makes the module unrealisable (error on that field)."""
+    orders = ["LittleEndian", "BigEndian"]
+    out = []
+    for k in range(n):
+        lines, bad = [], []
+        if k % 3 == 0:
+            mod = None                      # later siblings must NOT see an earlier struct's default
+        elif k % 3 == 1:
+            mod = rng.choice(orders)        # later siblings must see exactly the module default
+        else:
+            mod = rng.choice([None] + orders)
+        if mod:
+            lines.append(Line("attr", 0, name="byte_order", value='"%s"' % mod, default=True))
+        ntypes = rng.randint(3, 5)
+        for t in range(ntypes):
+            if t == 0:
+                own = rng.choice([o for o in orders if o != mod])      # an early struct WITH a default ...
+            elif t == 1:
+                own = None                                             # ... followed by one WITHOUT
+            else:
+                own = rng.choice([None, None] + orders)
+            name = "Tt%d" % t
+            lines.append(Line("head", 0, what="struct", name=name))
+            if own:
+                lines.append(Line("attr", 1, name="byte_order", value='"%s"' % own, default=True))
+            scope = own or mod
+            nested = rng.random() < 0.6
+            if nested:
+                nown = rng.choice([None, None] + orders)
+                lines.append(Line("raw", 1, text="struct Nest:"))
+                if nown:
+                    lines.append(Line("attr", 2, name="byte_order", value='"%s"' % nown, default=True))
+                nscope = nown or scope
+                w = rng.choice([1, 2, 4])
+                lines.append(Line("field", 2, start=L("int", "0"), size=L("int", str(w)), tname="UInt", name="na"))
+                if w > 1 and nscope is None:
+                    bad.append(len(lines))
+                if rng.random() < 0.5:
+                    lines.append(Line("field", 2, start=L("int", "4"), size=L("int", "2"), tname="Int", name="nb"))
+                    if nscope is None:
+                        bad.append(len(lines))
+                lines.append(Line("field", 2, start=L("int", "7"), size=L("int", "1"), tname="UInt", name="pad"))
+            off = 0
+            if nested:
+                lines.append(Line("field", 1, start=L("int", "0"), size=L("int", "8"), tname="%s.Nest" % name, name="nn"))
+                off = 8
+            for j in range(rng.randint(1, 3)):
+                w = rng.choice([1, 2, 2, 4, 8])
+                ty = rng.choice(["UInt", "Int"]) if w != 4 else rng.choice(["UInt", "Int", "Float"])
+                lines.append(Line("field", 1, start=L("int", str(off)), size=L("int", str(w)), tname=ty, name="f%d" % j))
+                off += w
+                explicit = rng.random() < 0.2
+                if explicit:
+                    lines.append(Line("attr", 2, name="byte_order", value='"%s"' % rng.choice(orders)))
+                elif w > 1 and scope is None:
+                    bad.append(len(lines))
+            if rng.random() < 0.5:
+                lines.append(Line("anon_bits", 1, start=L("int", str(off)), size=L("int", "2")))
+                if scope is None:
+                    bad.append(len(lines))
+                lines.append(Line("field", 2, start=L("int", "0"), size=L("int", "16"), tname="UInt", name="bw", inbits=True))
+        if bad:
+            out.append(Case(lines, "byte-order-missing:default-scope", bad[0], doc_typed=True, doc_realisable=False,
+                            cls="C14", alt_lines=bad[1:]))
+        else:
+            out.append(Case(lines, "boundary-ok:default-scope", 1, doc_typed=True, doc_realisable=True, cls="C14"))
+    return out
